@@ -467,11 +467,11 @@ class VAMMessage(CooperativeAwarenessMessage):
             ] = self.create_position_confidence(tpv["epx"], tpv["epy"])
         if "altHAE" in tpv.keys():
             alt = int(tpv["altHAE"] * 100)
-            if alt < -800000:
+            if alt <= -100000:  # AltitudeValue negativeOutOfRange: -1 000 m or less
                 self.vam["vam"]["vamParameters"]["basicContainer"]["referencePosition"][
                     "altitude"
                 ]["altitudeValue"] = -100000
-            elif alt > 613000:
+            elif alt >= 800000:  # AltitudeValue postiveOutOfRange: 8 000 m or more
                 self.vam["vam"]["vamParameters"]["basicContainer"]["referencePosition"][
                     "altitude"
                 ]["altitudeValue"] = 800000
